@@ -19,7 +19,7 @@ ENGINE = "H"
 DEFAULT_SEED = 606
 RUNS = {"quick": 5000, "thorough": 300000}
 JOBS = {"quick": 8, "thorough": 16}
-SEARCH_SPACE = "operation histories (insert/replace/update/delete/pop/index/sortby) on groups sharing member objects, mis-shaped insertions as faults, all index-object kinds"
+SEARCH_SPACE = "operation histories (insert/replace/update/delete/pop/index/sortby) on groups sharing member objects, mis-shaped insertions as faults, all index-object kinds incl. caller-owned index buffers refilled in place"
 RULE = ("one run = one history of 3..40 operations on two Datagroup slots (Arrays and 1/2/3-component Vectors, 0..12 rows, 4 dtypes, "
         "unique (member,row) stamps), checked after every step against numpy row tuples; distinct = hash of the operation list; "
         "non-trivial = at least one row selection or sort was applied to a group with >= 2 members and >= 2 rows")
@@ -59,12 +59,13 @@ def gen_index(rng, n):
         f = lambda: rng.choice([None, None, rng.randrange(-n - 1, n + 2)])
         return {"t": "slice", "a": f(), "b": f(), "s": rng.choice([None, None, 1, 2, 3, -1, -2])}
     if t == "mask":
-        return {"t": "mask", "bits": [rng.random() < 0.5 for _ in range(max(n, 1))], "as": rng.choice(["ndarray", "Array", "list"])}
+        # "reuse": the caller keeps one preallocated index buffer per row count and refills it in place before every use
+        return {"t": "mask", "bits": [rng.random() < 0.5 for _ in range(max(n, 1))], "as": rng.choice(["ndarray", "Array", "list"]), "reuse": rng.random() < 0.4}
     if t == "ints":
         return {"t": "ints", "idx": [rng.randrange(-max(n, 1), max(n, 1)) for _ in range(rng.randrange(0, n + 3))], "as": rng.choice(["ndarray", "Array", "list", "i4"])}
     p = list(range(max(n, 1)))
     rng.shuffle(p)
-    return {"t": "ints", "idx": p, "as": rng.choice(["ndarray", "Array"])}
+    return {"t": "ints", "idx": p, "as": rng.choice(["ndarray", "Array"]), "reuse": rng.random() < 0.4}
 
 
 def generate(rng, tier):
@@ -142,9 +143,23 @@ def observed(obj):
     return [np.asarray(obj.values)]
 
 
-def np_index(idx, n, osy):
-    """(python index object for osyris, numpy index object for the model) adapted to n rows; None = not applicable."""
+def np_index(idx, n, osy, bufs=None):
+    """(python index object for osyris, numpy index object for the model) adapted to n rows; None = not applicable.
+    `bufs`: the caller's reusable index buffers of this run, keyed by (kind, length); refilled in place."""
     t = idx["t"]
+
+    def buffered(values, kind):
+        if bufs is None or not idx.get("reuse") or idx.get("as") not in ("ndarray", "Array"):
+            return values.copy()
+        key = (kind, len(values))
+        if key not in bufs:
+            bufs[key] = {"nd": np.empty(len(values), dtype=values.dtype)}
+            bufs[key]["Array"] = osy.Array(values=bufs[key]["nd"])  # wraps the same buffer
+            if bufs[key]["Array"].values is not bufs[key]["nd"]:
+                bufs[key]["Array"] = None
+        bufs[key]["nd"][...] = values
+        return bufs[key]
+
     if t == "int":
         if n == 0:
             return None
@@ -155,23 +170,29 @@ def np_index(idx, n, osy):
         return s, s
     if t == "mask":
         bits = np.array([idx["bits"][i % len(idx["bits"])] for i in range(n)], dtype=bool)
-        if idx["as"] == "Array":
-            return osy.Array(values=bits.copy()), bits
         if idx["as"] == "list":
             return [bool(b) for b in bits], bits
-        return bits.copy(), bits
+        b = buffered(bits, "mask")
+        if idx["as"] == "Array":
+            if isinstance(b, dict):
+                return (b["Array"] if b["Array"] is not None else osy.Array(values=b["nd"])), bits
+            return osy.Array(values=b), bits
+        return (b["nd"] if isinstance(b, dict) else b), bits
     if t == "ints":
         if n == 0:
             ii = np.array([], dtype=np.int64)
         else:
             ii = np.array([(i % n if i >= 0 else -((-i - 1) % n) - 1) for i in idx["idx"]], dtype=np.int64)
-        if idx["as"] == "Array":
-            return osy.Array(values=ii.copy()), ii
         if idx["as"] == "list":
             return [int(i) for i in ii], ii
         if idx["as"] == "i4":
             return ii.astype(np.int32), ii
-        return ii.copy(), ii
+        b = buffered(ii, "ints")
+        if idx["as"] == "Array":
+            if isinstance(b, dict):
+                return (b["Array"] if b["Array"] is not None else osy.Array(values=b["nd"])), ii
+            return osy.Array(values=b), ii
+        return (b["nd"] if isinstance(b, dict) else b), ii
     raise HarnessError("bad index spec")
 
 
@@ -194,6 +215,7 @@ def execute(case, stats):
     res = {"violations": viol, "nontrivial": False}
     slots = [Slot(osy) for _ in range(NS)]
     nontrivial = False
+    bufs = {}  # the caller's reusable index buffers
     lastname = {}  # id(member object) -> key of its most recent insertion (objects are kept alive in `alive`)
     alive = []
 
@@ -326,7 +348,9 @@ def execute(case, stats):
                 if S.scalar or not S.m:
                     continue
                 n = cur_n(op["s"])
-                pair = np_index(op["idx"], n, osy)
+                pair = np_index(op["idx"], n, osy, bufs)
+                if op["idx"].get("reuse") and op["idx"].get("as") in ("ndarray", "Array"):
+                    stats.inc("probe.index_buffer_refilled_in_place")
                 if pair is None:
                     continue
                 oi, ni = pair
@@ -433,7 +457,7 @@ def execute(case, stats):
 
 
 def measure(case):
-    return (len(case["ops"]), case["n0"], len(core.dumps(case["ops"])))
+    return (len(case["ops"]), case["n0"], sum(1 for o in case["ops"] if o["op"] == "index" and o["idx"].get("reuse")), len(core.dumps(case["ops"])))
 
 
 def reductions(case, viol):
@@ -446,4 +470,9 @@ def reductions(case, viol):
             c = dict(case)
             c["ops"] = list(case["ops"])
             c["ops"][i] = dict(op, m=dict(op["m"], kind="arr", nc=1, dtype="f8", unit=""))
+            yield c
+        if op["op"] == "index" and op["idx"].get("reuse"):
+            c = dict(case)
+            c["ops"] = list(case["ops"])
+            c["ops"][i] = dict(op, idx=dict(op["idx"], reuse=False))
             yield c
